@@ -425,10 +425,14 @@ class _IterWalk(object):
                 raise AnalysisError("tree-iter: index %s" % pyfront.unparse(e))
             return v[i]
         if isinstance(e, ast.Call) and isinstance(e.func, ast.Name) and len(e.args) == 1 \
-                and not e.keywords and e.func.id in ("len", "tuple", "bool"):
+                and not e.keywords and e.func.id in ("len", "tuple", "bool", "int"):
             v = self.ev(e.args[0])
             if e.func.id == "bool":
                 return bool(v)
+            if e.func.id == "int":
+                if isinstance(v, (bool, int)):
+                    return int(v)
+                raise AnalysisError("tree-iter: int() of %r" % (v,))
             if not isinstance(v, tuple):
                 raise AnalysisError("tree-iter: %s of a non-tuple" % e.func.id)
             return len(v) if e.func.id == "len" else tuple(v)
@@ -513,17 +517,26 @@ def _tree_iter_fn():
     return fn
 
 
-def iter_continue():
+def iter_continue(iterargs=None):
+    """{which leaves yield: leaves visited}; iterargs = the range arguments of
+    the sequence (default: both bounds omitted)"""
     fn = _tree_iter_fn()
     out = {}
     for ys in itertools.product((True, False), repeat=NLEAVES):
-        w = _IterWalk(fn, ys, (MARK, MARK, False, False))
+        w = _IterWalk(fn, ys, iterargs or (MARK, MARK, False, False))
         try:
             w.run(fn.body)
         except _Stop:
             pass
         out[ys] = [v[0] for v in w.visits]
     return out
+
+
+ITER_ARGS = (("both bounds omitted", None),
+             ("min omitted, exclusive", (MARK, MARK, True, False)),
+             ("min None", (None, MARK, False, False)),
+             ("min given", (KEYLO, MARK, False, False)),
+             ("min and max given, exclusive", (KEYLO, KEYHI, True, True)))
 
 
 def tree_exclude_table():
